@@ -155,9 +155,9 @@ func segStartsOf(rs ...*relation) []int64 {
 type cmpMode int
 
 const (
-	cmpEqual cmpMode = iota
-	cmpBSuperset       // B never loses a connection of A
-	cmpBSubset         // B never gains a connection
+	cmpEqual     cmpMode = iota
+	cmpBSuperset         // B never loses a connection of A
+	cmpBSubset           // B never gains a connection
 )
 
 // comparePointwise compares two relations pointwise; only keys accepted by `only` are judged.
